@@ -41,7 +41,7 @@ def in_domain(spec):
 def c20_docs(draw):
     style = draw(st.integers(0, 2))
     if style == 0:
-        doc = draw(docs.documents(max_subnets=4, max_size=2, max_hosts=6, extras=False))
+        doc = draw(docs.documents(max_subnets=4, max_size=2, max_hosts=6, extras=False, wide=0))
     else:
         # permissive single-service scenario on a random tree (+ extra edges): isolates the topology
         n = draw(st.integers(2, 5))
